@@ -6,6 +6,7 @@ open Afkak.Producer Afkak.Monitor.ProducerTrace Afkak.Monitor.C19
 def C19_dispatch_iff : Prop := ∀ cfg evs, dispatchIff cfg (traceOf cfg evs) = true
 def C19_cancel : Prop := ∀ cfg evs, cancel cfg (traceOf cfg evs) = true
 def C19_stop : Prop := ∀ cfg evs, stop cfg (traceOf cfg evs) = true
+def C19_cancel_later_detaches : Prop := ∀ cfg evs, detach cfg (traceOf cfg evs) = true
 
 /-- time of each step: the sum of the `advance`s before it -/
 def timeline : Rat → List Ev → List Rat
